@@ -26,16 +26,15 @@ type cop struct {
 }
 
 type ccase struct {
-	WindowUs int   `json:"window_us"`
-	Bg       bool  `json:"bg"` // a background goroutine consumes Signals() continuously
+	WindowNs int64 `json:"window_ns"` // as passed to NewCoalescer; negative is documented as zero
+	Bg       bool  `json:"bg"`        // a background goroutine consumes Signals() continuously
 	Script   []cop `json:"script"`
 }
 
 const coalescerWatchdog = 8 * time.Second
 
 func coalescerCase(cc ccase) map[string]any {
-	window := time.Duration(cc.WindowUs) * time.Microsecond
-	co := state.NewCoalescer(window)
+	co := state.NewCoalescer(time.Duration(cc.WindowNs))
 	k := newClock()
 	// Strobe and Terminate run in their own goroutines under a watchdog; one expiry per case is waited
 	// out in full, later ones only briefly; stuck goroutines are leaked
@@ -159,7 +158,12 @@ func coalescerCase(cc ccase) map[string]any {
 	go co.Terminate()
 	rmu.Lock()
 	defer rmu.Unlock()
-	return map[string]any{"ev": "CoalescerCase", "w": cc.WindowUs, "strobes": strobes,
+	// w: the effective window in whole microseconds (negative counts as zero, a fraction is dropped)
+	weff := cc.WindowNs / 1000
+	if weff < 0 {
+		weff = 0
+	}
+	return map[string]any{"ev": "CoalescerCase", "w": weff, "strobes": strobes,
 		"recvs": append([]map[string]any{}, recvs...), "term": terms}
 }
 
@@ -168,9 +172,17 @@ func coalescerCase(cc ccase) map[string]any {
 // observed (they return as soon as it arrives), drains right after a strobe,
 // and termination at a random point.
 func genCoalescerCase(r *rand.Rand, deep bool) ccase {
-	w := []int{50000, 60000, 80000, 100000}[r.Intn(4)]
-	cc := ccase{WindowUs: w, Bg: r.Intn(4) == 0}
+	// the window: negative, zero, 1 ns, 1 us, 1 ms, 20 ms, 50-100 ms
+	ns := []int64{-5000000, 0, 1, 1000, 1000000, 20000000, 50000000, 60000000, 80000000, 100000000}[r.Intn(10)]
+	w := int(ns / 1000) // microseconds, for the timing of the script only
+	if w < 0 {
+		w = 0
+	}
+	cc := ccase{WindowNs: ns, Bg: r.Intn(4) == 0}
 	gap := func() int {
+		if w < 5000 { // tiny windows: gaps below, around and far above them
+			return []int{0, 0, 0, 20, 200, 1000, 3000, w + 500}[r.Intn(8)]
+		}
 		switch r.Intn(8) {
 		case 0:
 			return 0
@@ -234,7 +246,7 @@ func genCoalescerCase(r *rand.Rand, deep bool) ccase {
 		case 0, 1: // wait for the owed signal
 			awaitSignal()
 		case 2: // let it fire into the buffer without consuming
-			s = append(s, cop{Op: "sleep", Us: w + 20000 + r.Intn(w)})
+			s = append(s, cop{Op: "sleep", Us: w + 20000 + r.Intn(w+1)})
 		case 3: // drain immediately after the strobe
 			s = append(s, cop{Op: "drain"})
 		case 4: // a short attempt that ends before the window
